@@ -190,8 +190,11 @@ def borrowed_rate_forms(ctx, config, w):
                     outs = ev.summarize(b)
                     t = one([(g, k, T.canon(x)) for g, k, x in outs])
                     calls = [f for f in ev.calls_seen if f.get("trait") == tr]
-                    ok = (t is not None and t[0] == "app" and t[3] == (S.P(0, "self"), S.P(1, "rhs")) and len(ev.calls_seen) == 1 and len(calls) == 1
-                          and model.alpha([model.ty_key(a) for a in calls[0]["args"]]) == model.alpha([ss, rs]))
+                    tys = model.alpha([model.ty_key(a) for a in calls[0]["args"]]) if len(calls) == 1 else None
+                    ok = (t is not None and t[0] == "app" and len(ev.calls_seen) == 1 and len(calls) == 1
+                          and ((t[3] == (S.P(0, "self"), S.P(1, "rhs")) and tys == model.alpha([ss, rs]))
+                               # `rate * q` written as `q * rate` (the direction the by-value operator may delegate in, too)
+                               or (op == "*" and ss.startswith("quantities::rate::Rate<") and t[3] == (S.P(1, "rhs"), S.P(0, "self")) and tys == model.alpha([rs, ss]))))
                     why = "body is %s" % (T.show(t) if t else outs)
                 except T.Unsupported as x:
                     why = "unsupported construct: " + x.what
